@@ -16,8 +16,24 @@ the per-stream compressed sizes and payloads), so the driver can run them next t
 A stream may be `trunc`ated (the file ends inside it): then `csize` is the number of bytes present and
 `payload` is what the library can still decode from them.
 
+A stream may be `bad` (its bytes are not a valid stream: a damaged header, body or trailer).  What the
+libraries REPORT for such bytes is part of their contracts (`zInflate`, `bzReadLoop`, `gzReadE`):
+  * `Bad.magic`: the bytes do not start with a stream header (gzip: ID1 ID2 = 1f 8b; bzip2: "BZh1".."BZh9").
+    `BZ2_bzRead` / `BZ2_bzDecompress` return BZ_DATA_ERROR_MAGIC and `inflate` returns Z_DATA_ERROR in their
+    first call on the stream — for the first stream of a file and for every later one alike.  `gzread` is
+    different (gzlib's gz_look): bytes without the magic at the start of the file are COPIED verbatim
+    ("transparent" reading), after at least one member they are ignored as trailing garbage; no error.
+  * `Bad.data`: the library hands out `payload` and then reports Z_DATA_ERROR / BZ_DATA_ERROR (invalid code,
+    block CRC, stream CRC / ISIZE, bad method or flags in a header that has the magic).  `payload` = the
+    bytes of the calls that precede the one reporting the error (each fills its output space); the error
+    is returned by the call that would have to go beyond `payload`; that call delivers nothing.
+After the first trunc/bad stream a library never looks at the rest of the file: the faulty stream is the
+last one of the list and `csize` is the number of bytes from its start to the end of the file (trailing
+garbage after the last stream is such a stream).
+
 `Fixes.all` is the code as it is today: /repo commits 20beb73 (gzip buffer), 0ac7ff4 (bzip2 buffer),
-d74b2ae (bzip2 fd) repaired findings F11a–F11e + the bzip2-buffer truncation finding.  `Fixes.none` is the
+d74b2ae (bzip2 fd) repaired findings F11a–F11e + the bzip2-buffer truncation finding; d0f1d5d (gzip fd)
+refuses a file without gzip magic that gzread would copy verbatim.  `Fixes.none` is the
 code before those commits; it is kept so that the refutation witnesses stay checked (regression probes: the
 check switches the model to whatever the tree under test does and the monitors raise the old finding keys).
 Core-only.
@@ -26,6 +42,13 @@ Core-only.
 namespace Osmium.Decomp
 
 /-! ## Files, configuration, results -/
+
+/-- In which way the bytes of a stream are not a valid stream. -/
+inductive Bad
+  | none
+  | data    -- Z_DATA_ERROR / BZ_DATA_ERROR after `payload`
+  | magic   -- no stream header: BZ_DATA_ERROR_MAGIC / "incorrect header check"
+  deriving Repr, DecidableEq
 
 /-- One compressed stream as the decompression libraries see it. -/
 structure Stream (α : Type) where
@@ -38,6 +61,8 @@ structure Stream (α : Type) where
   /-- truncated gzip stream only: when exactly `payload` has been produced and the output space is
       used up, unconsumed input bytes are left (the next `inflate` call consumes them: `total_in` moves) -/
   slack : Bool := false
+  /-- the bytes are not a valid stream (see the header comment) -/
+  bad : Bad := .none
   deriving Repr, DecidableEq
 
 abbrev CFile (α : Type) := List (Stream α)
@@ -47,7 +72,8 @@ def fileSize (f : CFile α) : Nat := (f.map (·.csize)).sum
 /-- what a reference decompressor yields for an intact file -/
 def refPayload (f : CFile α) : List α := (f.map (·.payload)).flatten
 
-def intact (f : CFile α) : Bool := f.all (fun s => !s.trunc)
+/-- every stream is a complete valid stream -/
+def intact (f : CFile α) : Bool := f.all (fun s => !s.trunc && s.bad == .none)
 
 structure Cfg where
   /-- `Decompressor::input_buffer_size` (1 MiB; overridable with OSMIUM_VERIF_INPUT_BUFFER_SIZE) -/
@@ -69,10 +95,12 @@ structure Fixes where
   bzUnused : Bool := false
   /-- buffer decompressors report input that ends inside a stream (F11e, F11f) -/
   bufTrunc : Bool := false
+  /-- GzipDecompressor refuses a file that gzread copies verbatim (`gzdirect()`: no gzip magic at the start) -/
+  gzDirect : Bool := false
   deriving Repr, DecidableEq
 
 def Fixes.none : Fixes := {}
-def Fixes.all : Fixes := { bufMulti := true, bzUnused := true, bufTrunc := true }
+def Fixes.all : Fixes := { bufMulti := true, bzUnused := true, bufTrunc := true, gzDirect := true }
 
 inductive ErrClass
   | gzip    -- osmium::gzip_error
@@ -167,25 +195,57 @@ structure GzState (α : Type) where
   fsize : Nat
   /-- `gzoffset()`: only its value once the end of the file has been seen is part of the contract -/
   off : Nat := 0
+  /-- a member is damaged (`Bad.data`): once `pending` cannot fill a call, gzread returns -1 (Z_DATA_ERROR) -/
+  dataErr : Bool := false
+  /-- `gzdirect()`: the file does not start with the gzip magic, gzread copies it verbatim
+      (gz_open sets `direct = 1` "for empty file"; gz_look clears it when it sees 1f 8b) -/
+  direct : Bool := false
+
+/-- What gzread will hand out for a file: (bytes, the file ends inside a member, a member is damaged).
+    gzlib.c/gzread.c `gz_look`: a member must start with 1f 8b; if the bytes at the START OF THE FILE do not,
+    the whole file is copied verbatim (`state->direct`; the `payload` of such a `Bad.magic` stream is its raw
+    bytes); after at least one member they are "trailing garbage": ignored, end of file, NO error.
+    A `Bad.data` member: `payload` is what gzread hands out of it before it reports the error. -/
+def gzScan : Bool → CFile α → List α × Bool × Bool
+  | _, [] => ([], false, false)
+  | first, s :: rest =>
+    match s.bad with
+    | .magic => (if first then s.payload else [], false, false)
+    | .data => (s.payload, false, true)
+    | .none =>
+      let r := gzScan false rest
+      (s.payload ++ r.1, s.trunc || r.2.1, r.2.2)
 
 def gzOpen (f : CFile α) : GzState α :=
-  { pending := refPayload f, trunc := !intact f, fsize := fileSize f }
+  let r := gzScan true f
+  { pending := r.1, trunc := r.2.1, dataErr := r.2.2, fsize := fileSize f,
+    direct := match f with
+              | [] => true
+              | s :: _ => s.bad == .magic }
 
 /-- Contract of `gzread(file, buf, n)`: delivers `min n |pending|` bytes; fewer than `n` only when the
     end of the file has been reached, and if that end is inside a member the error Z_BUF_ERROR is
-    recorded (the call itself still returns the bytes).  (Data errors, nread < 0, are outside the model:
-    files are intact or truncated.) -/
+    recorded (the call itself still returns the bytes). -/
 def gzRead (n : Nat) (s : GzState α) : List α × GzState α :=
   let hit := decide (s.pending.length < n)
   (s.pending.take n,
    { s with pending := s.pending.drop n, bufErr := s.bufErr || (hit && s.trunc),
             off := if hit then s.fsize else s.off })
 
-/-- `GzipDecompressor::read`: `nread = gzread(.., input_buffer_size)`; `buffer.resize(nread)`;
-    `set_offset(gzoffset())`.  `close`: `gzclose_r` returns Z_BUF_ERROR if the last read ended inside a
-    member -> gzip_error. -/
-def gzFdDec (cfg : Cfg) : Dec (GzState α) α where
-  read s := .ok (gzRead cfg.ibs s)
+/-- `gzread` with its error return: a damaged member makes the call that cannot be filled from the bytes
+    before the damage return -1 (what it had gathered is lost: gz_read returns 0 when gz_fetch/gz_decomp
+    fail); the error is sticky. -/
+def gzReadE (n : Nat) (s : GzState α) : Option (List α × GzState α) :=
+  if s.dataErr && decide (s.pending.length < n) then none else some (gzRead n s)
+
+/-- `GzipDecompressor::read`: `nread = gzread(.., input_buffer_size)`; `if (nread < 0) throw gzip_error`;
+    repaired (`gzDirect`): `if (nread > 0 && gzdirect(m_gzfile)) throw gzip_error` ("not a gzip file");
+    `buffer.resize(nread)`; `set_offset(gzoffset())`.  `close`: `gzclose_r` returns Z_BUF_ERROR if the last
+    read ended inside a member -> gzip_error. -/
+def gzFdDec (cfg : Cfg) (fx : Fixes) : Dec (GzState α) α where
+  read s := match gzReadE cfg.ibs s with
+            | none => .error ⟨.gzip, .read⟩
+            | some r => if fx.gzDirect && s.direct && !r.1.isEmpty then .error ⟨.gzip, .read⟩ else .ok r
   close s := if s.bufErr then .error ⟨.gzip, .close⟩ else .ok ()
   offset s := s.off
 
@@ -199,7 +259,13 @@ inductive ZRet
   | ok          -- Z_OK / BZ_OK
   | streamEnd   -- Z_STREAM_END / BZ_STREAM_END
   | bufError    -- Z_BUF_ERROR (zlib only: no progress possible)
+  | dataError   -- Z_DATA_ERROR / BZ_DATA_ERROR
+  | dataErrorMagic  -- BZ_DATA_ERROR_MAGIC (zlib: Z_DATA_ERROR "incorrect header check")
   deriving Repr, DecidableEq
+
+def Bad.zret : Bad → ZRet
+  | .magic => .dataErrorMagic
+  | _ => .dataError
 
 /-- z_stream / bz_stream over the whole buffer. -/
 structure ZState (α : Type) where
@@ -211,10 +277,13 @@ structure ZState (α : Type) where
   /-- unconsumed input of the current (truncated) stream remains -/
   inLeft : Bool := false
   rest : List (Stream α) := []   -- streams after the current one (avail_in > 0 after STREAM_END iff non-empty)
+  /-- the current stream is damaged -/
+  bad : Bad := .none
 
 def zOpen : CFile α → ZState α
   | [] => { has := false }
-  | s :: rest => { has := true, cur := s.payload, trunc := s.trunc, slack := s.slack, inLeft := decide (0 < s.csize), rest := rest }
+  | s :: rest => { has := true, cur := s.payload, trunc := s.trunc, slack := s.slack, inLeft := decide (0 < s.csize), rest := rest,
+                   bad := s.bad }
 
 /-- Contract of one `inflate(&strm, Z_SYNC_FLUSH)` / `BZ2_bzDecompress(&strm)` call with `room` bytes of
     output space on a stream whose whole input is in the buffer:
@@ -223,10 +292,18 @@ def zOpen : CFile α → ZState α
       it stops at the end of this stream — input after it is left in `avail_in`;
     * truncated stream: produces what it can; zlib returns Z_BUF_ERROR when a call neither consumes input
       nor produces output, Z_OK otherwise; libbz2 always returns BZ_OK;
-    * empty buffer: zlib Z_BUF_ERROR, libbz2 BZ_OK. -/
+    * empty buffer: zlib Z_BUF_ERROR, libbz2 BZ_OK;
+    * damaged stream (`bad`), the first stream of the buffer or one reached through inflateReset /
+      BZ2_bzDecompressInit after a STREAM_END alike: full output buffers (Z_OK / BZ_OK) as long as the bytes
+      before the damage fill them; the call that would have to go beyond them returns the data error
+      (Z_DATA_ERROR; BZ_DATA_ERROR, or BZ_DATA_ERROR_MAGIC when the bytes do not start with "BZh1".."BZh9")
+      — for a missing header that is the first call on the stream. -/
 def zInflate (k : Kind) (room : Nat) (s : ZState α) : List α × ZRet × ZState α :=
   if !s.has then
     ([], (match k with | .gzip => .bufError | .bzip2 => .ok), s)
+  else if s.bad != .none then
+    if s.bad == .magic || decide (s.cur.length < room) then ([], s.bad.zret, s)
+    else (s.cur.take room, .ok, { s with cur := s.cur.drop room })
   else
     let out := s.cur.take room
     let cur' := s.cur.drop room
@@ -266,6 +343,8 @@ def bufStep (cfg : Cfg) (fx : Fixes) (k : Kind) (s : BufDec α) : Except Err (Li
   let (out, ret, z') := zInflate k cfg.ostep s.z
   match ret with
   | .bufError => .error ⟨errOf k, .read⟩
+  | .dataError => .error ⟨errOf k, .read⟩        -- `result != OK && result != STREAM_END` -> throw
+  | .dataErrorMagic => .error ⟨errOf k, .read⟩   -- likewise: no special treatment of a missing header
   | .streamEnd =>
     if fx.bufMulti && !z'.rest.isEmpty then .ok (out, { z := zNext z', live := true })
     else .ok (out, { z := z', live := false })
@@ -311,17 +390,35 @@ structure BzState (α : Type) where
   e : Nat
   /-- payload of the current stream not yet delivered -/
   cur : List α
+  /-- the stream never reaches its end marker: the file ends inside it, or it is damaged (`bad`) -/
   trunc : Bool
   rest : List (Stream α)
+  /-- the current stream is damaged -/
+  bad : Bad := .none
   deriving Repr
 
 /-- `BZ2_bzReadOpen(&err, file, 0, 0, unused, nUnused)` positioned at the stream that starts at `start`.
-    An empty remainder is a stream of which no byte is present. -/
+    An empty remainder is a stream of which no byte is present.  BZ2_bzReadOpen itself does not look at
+    the bytes (it only copies `unused` into the read-ahead): a missing header is reported by the first
+    BZ2_bzRead — on the first stream and on a stream opened after a BZ_STREAM_END alike. -/
 def bzOpenAt (fsize fp : Nat) (eof : Bool) (start : Nat) : CFile α → BzState α
   | [] => { fsize, fp, eof, pos := start, e := start, cur := [], trunc := true, rest := [] }
-  | s :: rest => { fsize, fp, eof, pos := start, e := start + s.csize, cur := s.payload, trunc := s.trunc, rest }
+  | s :: rest => { fsize, fp, eof, pos := start, e := start + s.csize, cur := s.payload,
+                   trunc := s.trunc || s.bad != .none, rest, bad := s.bad }
 
 def bzOpen (f : CFile α) : BzState α := bzOpenAt (fileSize f) 0 false 0 f
+
+/-- what BZ2_bzRead puts into `bzerror` when it fails -/
+inductive BzErr
+  | unexpectedEof     -- BZ_UNEXPECTED_EOF
+  | dataError         -- BZ_DATA_ERROR
+  | dataErrorMagic    -- BZ_DATA_ERROR_MAGIC
+  deriving Repr, DecidableEq
+
+def BzErr.ofBad : Bad → BzErr
+  | .none => .unexpectedEof
+  | .data => .dataError
+  | .magic => .dataErrorMagic
 
 /-- Contract of one `BZ2_bzDecompress` call inside BZ2_bzRead (single-block streams): nothing is produced
     before the whole block data (everything but the `trailer`) has been consumed; then up to `room` bytes;
@@ -356,21 +453,29 @@ def bzProbe (s : BzState α) : BzState α :=
       (refill, see `bzRefill`)
       `ret = BZ2_bzDecompress(&strm);`
       `if (ret == BZ_OK && myfeof(handle) && avail_in == 0 && avail_out > 0) -> BZ_UNEXPECTED_EOF`
+      `if (ret != BZ_OK && ret != BZ_STREAM_END) { BZ_SETERR(ret); return 0; }`
+      `if (ret == BZ_OK && myfeof(handle) && avail_in == 0 && avail_out > 0) -> BZ_UNEXPECTED_EOF`
       `if (ret == BZ_STREAM_END) return len - avail_out;   if (avail_out == 0) return len;`
-    Returns (bytes, stream_end, state) or BZ_UNEXPECTED_EOF. -/
-def bzReadLoop (cfg : Cfg) : Nat → Nat → List α → BzState α → Except Unit (List α × Bool × BzState α)
-  | 0, _, _, _ => .error ()
+    Returns (bytes, stream_end, state) or the error code put into `bzerror`.
+    Damaged streams: bytes that do not start with "BZh1".."BZh9" make the first BZ2_bzDecompress call
+    return BZ_DATA_ERROR_MAGIC (`Bad.magic`).  Other damage (`Bad.data`): full buffers as long as the bytes
+    decoded before the damage fill them, BZ_DATA_ERROR from the call that would have to go beyond them.
+    (Where in the file libbz2 notices the damage is not observable through the wrapper — it throws without
+    `set_offset` —, so the oracle lets it consume the bytes of the damaged stream first, like a cut one.) -/
+def bzReadLoop (cfg : Cfg) : Nat → Nat → List α → BzState α → Except BzErr (List α × Bool × BzState α)
+  | 0, _, _, _ => .error .unexpectedEof
   | fuel + 1, room, acc, s =>
+    if s.bad == .magic then .error .dataErrorMagic else
     let r := bzDecompress cfg room (bzRefill cfg s)
     if r.2.1 then .ok (acc ++ r.1, true, r.2.2)
     else
       let s3 := bzProbe r.2.2
-      if s3.fp == s3.fsize && s3.pos == s3.fp && decide (0 < room - r.1.length) then .error ()
+      if s3.fp == s3.fsize && s3.pos == s3.fp && decide (0 < room - r.1.length) then .error (BzErr.ofBad s.bad)
       else if room - r.1.length == 0 then .ok (acc ++ r.1, false, s3)
       else bzReadLoop cfg fuel (room - r.1.length) (acc ++ r.1) s3
 
 /-- every iteration that does not return reads at least one more byte of the file -/
-def bzRead (cfg : Cfg) (n : Nat) (s : BzState α) : Except Unit (List α × Bool × BzState α) :=
+def bzRead (cfg : Cfg) (n : Nat) (s : BzState α) : Except BzErr (List α × Bool × BzState α) :=
   bzReadLoop cfg (s.fsize - s.fp + 2) n [] s
 
 /-- `BZ2_bzReadGetUnused`: the read-ahead bytes after the end of the stream. -/
@@ -389,7 +494,8 @@ structure BzDec (α : Type) where
 
 /-- The body of `if (!m_stream_end) {...}` in `Bzip2Decompressor::read`:
       `nread = BZ2_bzRead(&bzerror, m_bzfile, buffer, input_buffer_size);`
-      `if (bzerror != BZ_OK && bzerror != BZ_STREAM_END) throw;`
+      `if (bzerror != BZ_OK && bzerror != BZ_STREAM_END) throw;`   — EVERY other code, on every stream: a
+      BZ_DATA_ERROR_MAGIC from a stream after the first is an error like any other, not "trailing garbage"
       `if (bzerror == BZ_STREAM_END) {`
       `  if (!feof(file)) { GetUnused; if (num_unused != 0) { close; reopen with unused } else m_stream_end = true; }`
       `  else m_stream_end = true; }`
@@ -397,7 +503,9 @@ structure BzDec (α : Type) where
     between the end of the file and a reopen. -/
 def bzStep (cfg : Cfg) (fx : Fixes) (s : BzDec α) : Except Err (List α × BzDec α) :=
   match bzRead cfg cfg.ibs s.lib with
-  | .error _ => .error ⟨.bzip2, .read⟩
+  | .error .unexpectedEof => .error ⟨.bzip2, .read⟩
+  | .error .dataError => .error ⟨.bzip2, .read⟩
+  | .error .dataErrorMagic => .error ⟨.bzip2, .read⟩
   | .ok (out, fin, lib') =>
     if fin then
       if fx.bzUnused then
@@ -447,7 +555,7 @@ def readFile (cfg : Cfg) (fx : Fixes) (c : Comp) (m : Mode) (f : CFile α) : Run
   match c, m with
   | .none, .fd => run (noFdDec cfg) (fuelFor f) { file := refPayload f }
   | .none, .buf => run noBufDec (fuelFor f) { buffer := refPayload f, size := (refPayload f).length }
-  | .gzip, .fd => run (gzFdDec cfg) (fuelFor f) (gzOpen f)
+  | .gzip, .fd => run (gzFdDec cfg fx) (fuelFor f) (gzOpen f)
   | .gzip, .buf => run (bufDec cfg fx .gzip f.length) (fuelFor f) { z := zOpen f }
   | .bzip2, .fd => run (bzFdDec cfg fx f.length) (fuelFor f) { lib := bzOpen f }
   | .bzip2, .buf => run (bufDec cfg fx .bzip2 f.length) (fuelFor f) { z := zOpen f }
